@@ -1090,6 +1090,11 @@ impl Compiler {
         if let Some(finalizer) = &try_stmt.finalizer {
             self.builder.set_span(finalizer.span);
 
+            // The completion that led into the finally block waits in a register of its own
+            // until the block ends (each finally block has one: they nest)
+            let pending_slot = self.builder.alloc_register()?;
+            self.builder.emit(Op::FinallyStart { slot: pending_slot });
+
             // Compile finally block in its own block scope (its let/const/class declarations
             // must not leak into the enclosing scope)
             self.builder.emit(Op::PushScope);
@@ -1103,7 +1108,8 @@ impl Compiler {
             self.builder.emit(Op::PopScope);
 
             // FinallyEnd completes any pending return/throw
-            self.builder.emit(Op::FinallyEnd);
+            self.builder.emit(Op::FinallyEnd { slot: pending_slot });
+            self.builder.free_register(pending_slot);
         }
 
         // End of try-catch-finally
